@@ -198,6 +198,20 @@ async fn check_auth_with_headers<'a>(
     }
 }
 
+/// Verification hook (compiled only with `--cfg sneldb_verif`): the crate-private gate of the
+/// `/command` endpoint, callable without an HTTP request.
+#[cfg(sneldb_verif)]
+pub async fn verif_check_auth_with_headers(
+    input: &str,
+    auth_from_headers: Option<(String, String)>,
+    auth_manager: Option<&Arc<AuthManager>>,
+    client_ip: Option<&str>,
+) -> Option<(String, String)> {
+    check_auth_with_headers(input, auth_from_headers, auth_manager, client_ip)
+        .await
+        .map(|(cmd, user)| (cmd.to_string(), user))
+}
+
 pub async fn handle_line_command(
     req: Request<Incoming>,
     registry: Arc<RwLock<SchemaRegistry>>,
